@@ -339,6 +339,10 @@ def run_design(res, libname, dname, bf, tier, seed):
                 for edge in ('posedge', 'negedge') if tier == 'thorough' or k == seed % n else ():
                     run(full[:k] + [io(k, k, form=form, edge=edge)] + full[k + 1:], 'split')
             run(full + [io(k, n + 3)], 'per_inst')
+            # a later entry for the same pin whose value for one output polarity is empty: that polarity reads 0 again
+            run(full + [io(k, n + 6, form='ef')], 'split')
+            run(full + [io(k, n + 7, form='re')], 'per_inst')
+            run(full + [io(k, n + 8, form='ef', edge='negedge')], 'interleaved')
             for vf in ('int', 'neg', 'empty_fields'):
                 run(full[:k] + [io(k, k, vfmt=vf)] + full[k + 1:], 'split' if k % 2 else 'per_inst')
             run(full + [io(k, n + 3)], 'split')
